@@ -179,6 +179,38 @@ def run_streams(first_vals, length, values):
   return {'n': n, 'keys': len(outcomes), 'viol': viol, 'sample': sample}
 
 
+def run_e2e(stack, ncalls):
+  """End to end: the real client built by the public builder, 2 endpoints, ncalls calls; the dispatcher constructs a fresh
+  Source for every reply.  Series per dispatcher metric are bounded by the distinct (method, service, endpoint) tuples and the
+  per-service totals equal the number of calls / successes."""
+  from .. import stackharness
+  from scales.varz import VarzReceiver, VarzAggregator
+  params = {'stack': stack, 'endpoints': 2, 'ops': [('call', 'v%d' % i) for i in range(ncalls)], 'faults': [], 'timeout': 0.5025,
+            'horizon': 2.0}
+  r = stackharness.run_exec(params, [], None)
+  viol = []
+  data = VarzReceiver.VARZ_DATA
+  ok_calls = r['outcome'].count(':ok@')
+  agg = VarzAggregator.Aggregate(data, VarzReceiver.VARZ_METRICS)
+  svc = 'hello.Hello'
+  def total(metric):
+    return sum(a.total for k, a in agg.get(metric, {}).items() if k[0] == svc)
+  disp = total('scales.MessageDispatcher.dispatch_messages')
+  succ = total('scales.MessageDispatcher.success_messages')
+  if disp != ncalls or succ != ok_calls or ok_calls != ncalls:
+    viol.append({'clause': 'C18.e2e-sum', 'message': '%s stack: %d calls issued, %d succeeded; aggregated dispatch_messages=%r success_messages=%r'
+                 % (stack, ncalls, ok_calls, disp, succ), 'sig': {}})
+  for metric in ('scales.MessageDispatcher.success_messages', 'scales.MessageDispatcher.request_latency',
+                 'scales.MessageDispatcher.dispatch_messages'):
+    series = data.get(metric, {})
+    distinct = set(s.to_tuple() for s in series)
+    if len(series) > len(distinct) or len(series) > 2:
+      viol.append({'clause': 'C18.e2e-series', 'message': '%s stack: %d series in %s after %d calls to 2 endpoints (distinct sources: %d)'
+                   % (stack, len(series), metric, ncalls, len(distinct)), 'sig': {}})
+  return {'n': ncalls, 'keys': len(data), 'viol': viol,
+          'sample': {'end_to_end': stack, 'calls': ncalls, 'series_success_messages': len(data.get('scales.MessageDispatcher.success_messages', {}))}}
+
+
 def main(tier, seed):
   rep = Report(PROP, tier, seed, 'exploration')
   ops = ops_alphabet()
@@ -214,6 +246,12 @@ def main(tier, seed):
       if o['sample']:
         rep.sample(o['sample'])
     rep.part('sample streams', engine='E', max_length=SL, values=values, reservoir_size=3, executions=n2)
+    out = explore.pmap('vt.checks.c18', 'run_e2e', [('thrift', 12), ('mux', 12), ('thrift', 40 if tier == 'thorough' else 20)], pool, seed)
+    for o in out:
+      rep.add('evaluations', o['n'])
+      rep.add_violations(o['viol'])
+      rep.sample(o['sample'])
+    rep.part('end to end through the real dispatcher', engine='S (default schedule)', runs=len(out))
   finally:
     pool.close()
     pool.join()
